@@ -204,6 +204,8 @@ def gen_case(rng, i, tier):
         host = 'value' if rng.random() < 0.5 else 'list'
     if host == 'list' and not isinstance(v, list):
         host = 'value'
+    if rng.random() < 0.12:
+        host = 'transcode'      # the operand of $encode is what a $decode in the same map produced
     spec = stack[0] if len(stack) == 1 and rng.random() < 0.7 else stack
     return {'value': v, 'stack': stack, 'spec': spec, 'host': host, 'want': want, 'mode': 'encode'}
 
@@ -214,6 +216,8 @@ def fixed_cases(tier):
         for want, v in (('scalar', 'a'), ('scalar', 7), ('map', {'a': 1, 'b': '', 'c': [1, 'x']}), ('list', ['a', 2, True]), ('lol', [['a', 'b'], [], 'c', [], ['d']]),
                         ('lom', [{'a': 1}, {'b': 2, 'c': ''}])):
             out.append({'value': v, 'stack': [t], 'spec': t, 'host': 'value', 'want': want, 'mode': 'encode'})
+    for t in ('json', 'base64', 'flags', 'values'):
+        out.append({'value': {'a': 1, 'b': 'x'}, 'stack': [t], 'spec': t, 'host': 'transcode', 'want': 'map', 'mode': 'encode'})
     out.append({'value': {'a': 1, 'b': 2}, 'stack': ['tolist:=', 'join:,'], 'spec': ['tolist:=', 'join:,'], 'host': 'map', 'want': 'map', 'mode': 'encode'})
     out.append({'value': [['prog'], [], '--v'], 'stack': ['flatten', 'prefix:+', 'join:,'], 'spec': ['flatten', 'prefix:+', 'join:,'], 'host': 'list', 'want': 'lol', 'mode': 'encode'})
     return out
@@ -240,6 +244,8 @@ def host_doc(v, spec, host):
         l = list(v)
         l.append({'$encode': spec})
         return {'r': l}
+    if host == 'transcode':
+        return {'r': {'$decode': 'json', '$value': json.dumps(v), '$encode': spec}}
     return {'r': {'$value': v, '$encode': spec}}
 
 
